@@ -179,7 +179,24 @@ const (
 // Tie compares the implementation's observable with the model (known flags), falling back
 // to the specification model. Returns the verdict and both model answers.
 func (c *Ctx) Tie(w int, op string, impl string, args ...[]byte) (Verdict, string, string) {
+	t0 := time.Now()
 	cur := c.Pool.Ask(w, drv.Req("c", op, args...))
+	if d := time.Since(t0); d > 2*time.Second {
+		// the extracted model is a specification, not an algorithm: say which case it is slow on
+		a := ""
+		if len(args) > 1 {
+			a = string(args[1])
+		} else if len(args) > 0 {
+			a = string(args[0])
+		}
+		if len(a) > 100 {
+			a = a[:100]
+		}
+		if os.Getenv("VERIF_SLOW") != "" {
+			fmt.Fprintf(os.Stderr, "SLOW-MODEL %s %v %q\n", op, d.Round(time.Millisecond), a)
+		}
+		c.Count("model_answers_slower_than_2s", 1)
+	}
 	if cur == impl {
 		return Agree, cur, ""
 	}
